@@ -113,11 +113,30 @@ func VerifC14MirrorParams() {
 		p2.Description = vOneOf("b.desc", "", "x", "y")
 		p1.CollectionFormat = vOneOf("a.cf", "", "csv")
 		p2.CollectionFormat = vOneOf("b.cf", "", "csv")
-		if vBool2("a.default") {
+		// default / example: absent, present but empty, present
+		switch vChoice("a.default", 3) {
+		case 1:
+			p1.Default = ""
+		case 2:
 			p1.Default = "d"
 		}
-		if vBool2("b.default") {
+		switch vChoice("b.default", 3) {
+		case 1:
+			p2.Default = ""
+		case 2:
 			p2.Default = "d"
+		}
+		switch vChoice("a.example", 3) {
+		case 1:
+			p1.Example = []interface{}{}
+		case 2:
+			p1.Example = "e"
+		}
+		switch vChoice("b.example", 3) {
+		case 1:
+			p2.Example = []interface{}{}
+		case 2:
+			p2.Example = "e"
 		}
 		if vKnown("C14-D8", vAnd(vNot(vStrEq(p1.Description, p2.Description)), vAnd(vNot(vStrEq(p1.Description, "")), vNot(vStrEq(p2.Description, ""))))) {
 			return
